@@ -10,6 +10,46 @@ import (
 	"github.com/DataDog/extendeddaemonset/zzverif/nondet"
 )
 
+// ZZ_C11_rollbackFaults: the failure-and-rollback scenario of the corpus with a fault at any
+// write of the first reconcile (rejected / answer lost / controller stops): a fresh instance
+// completes the rollback and reaches the same final spec and status as the failure-free run.
+func ZZ_C11_rollbackFaults() {
+	c, _ := zzFailedCanaryStore()
+	c.InjectFaults = true
+	_, err1 := zzReconcile(zzReconciler(c), "ns", "foo")
+	faulted := false
+	for _, e := range c.Log {
+		if e.Failed {
+			faulted = true
+		}
+	}
+	nondet.Assert("C11.rollback.error-reported", nondet.Implies(faulted, err1 != nil))
+	mid := zzStoredEDS(c, "ns", "foo")
+	// safety at the intermediate point: the promotion rule (a failed canary is never made active)
+	nondet.Assert("C11.rollback.mid-active", mid.Status.ActiveReplicaSet == "foo-a")
+	c.InjectFaults = false
+	for i := 0; i < 4; i++ {
+		_, err := zzReconcile(zzReconciler(c), "ns", "foo")
+		nondet.Assert("C11.rollback.recovery-ok", err == nil)
+	}
+	final := zzStoredEDS(c, "ns", "foo")
+	// failure-free final state: template restored, no canary, active unchanged, state back to Running
+	nondet.Assert("C11.rollback.final-template", zzImage(&final.Spec.Template) == "agent:A")
+	nondet.Assert("C11.rollback.final-status", final.Status.Canary == nil && final.Status.ActiveReplicaSet == "foo-a" &&
+		final.Status.State == datadoghqv1alpha1.ExtendedDaemonSetStatusStateRunning)
+	n := len(c.Log)
+	_, _ = zzReconcile(zzReconciler(c), "ns", "foo")
+	for _, e := range c.Log[n:] {
+		if e.Verb != "get" && e.Verb != "list" {
+			nondet.Assert("C11.rollback.quiescent", e.Verb == "delete" && e.Name == "foo-b")
+		}
+	}
+	nondet.Observe("state", string(final.Status.State))
+	nondet.Reach("C11.rollback.spec-write-failed", faulted && zzImage(&mid.Spec.Template) == "agent:B" && mid.Status.Canary == nil)
+	nondet.Reach("C11.rollback.status-write-failed", faulted && mid.Status.Canary != nil)
+	nondet.Reach("C11.rollback.no-fault", !faulted)
+}
+
 // ZZ_C11_edsFaults: an ExtendedDaemonSet reconcile (first deployment, or promotion of a new
 // template without canary strategy) in which any write may fail, be applied with the answer
 // lost, or be followed by a controller restart: writes only touch own objects, a failed write
